@@ -35,15 +35,18 @@ Record shell := mkShell {
              non-Normal control flow, which [Pipeline::execute] hands to the parent;
     [GBang]: a [!] pipeline ended with Return/Exit and had its exit code inverted;
     [GCond]: a while/until condition ended with a break/continue and an exit code that stops the
-             loop; the loop then reports the condition's code instead of the last body's. *)
-Inductive gk := GLeak | GBang | GCond.
+             loop; the loop then reports the condition's code instead of the last body's;
+    [GCompound]: errexit fired on a single-command pipeline whose command is a compound command
+             other than a subshell or [(( ))] (bash never exits on those by themselves). *)
+Inductive gk := GLeak | GBang | GCond | GCompound.
 Record world := mkWorld { sh : shell; out : list event; quiet : bool; ghost : list gk }.
 
-Inductive outcome (A : Type) := Out (a : A) (w : world) | OutOfFuel.
+(** [OutOfFuel] remembers the ghost marks collected up to the point where the fuel ran out *)
+Inductive outcome (A : Type) := Out (a : A) (w : world) | OutOfFuel (g : list gk).
 Arguments Out {A}. Arguments OutOfFuel {A}.
 
 Definition bind {A B} (o : outcome A) (k : A -> world -> outcome B) : outcome B :=
-  match o with Out a w => k a w | OutOfFuel => OutOfFuel end.
+  match o with Out a w => k a w | OutOfFuel g => OutOfFuel g end.
 
 (** ** state primitives *)
 Definition upd_sh (f : shell -> shell) (w : world) : world :=
@@ -160,6 +163,10 @@ Section Exec.
     | None => r
     end.
 
+  (** compound commands after which bash itself never applies errexit *)
+  Definition quiet_compound (c : cmd) : bool :=
+    match c with Brace _ | If _ _ _ | Loop _ _ _ | For _ _ _ | Case _ => true | _ => false end.
+
   (** [impl Execute for ast::Pipeline] *)
   Definition exec_pipeline (p : pipeline) (sup : bool) (w : world) : outcome result :=
     let '(bang, stages) := p in
@@ -175,7 +182,9 @@ Section Exec.
       let w3 := mark GBang (bang && is_return_or_exit r0) w2 in
       let w4 := set_last code w3 in
       let r1 := (code, snd r0) in
-      Out (if negb sup' then apply_errexit (sh w4) r1 else r1) w4).
+      let r2 := if negb sup' then apply_errexit (sh w4) r1 else r1 in
+      let fired := negb (is_normal r2) && is_normal r1 in
+      Out r2 (mark GCompound (fired && match stages with [c] => quiet_compound c | _ => false end) w4)).
 
   (** [impl Execute for ast::AndOrList] *)
   Fixpoint andor_rest (rest : list (bool * pipeline)) (sup : bool) (res : result) (w : world)
@@ -299,13 +308,13 @@ End Exec.
 
 Fixpoint exec (fuel : nat) (c : cmd) (sup : bool) (w : world) {struct fuel} : outcome result :=
   match fuel with
-  | O => OutOfFuel
+  | O => OutOfFuel (ghost w)
   | S f => exec_cmd (exec f) (while_loop f) c sup w
   end
 with while_loop (fuel : nat) (u : bool) (c b : clist) (sup : bool) (res : result) (w : world)
   {struct fuel} : outcome result :=
   match fuel with
-  | O => OutOfFuel
+  | O => OutOfFuel (ghost w)
   | S f => while_step (exec f) (while_loop f) u c b sup res w
   end.
 
